@@ -1,4 +1,5 @@
 import QModel.Core
+import QGen.C18
 /-!
 # C18 — Lindbladian generators (model of quara/objects/effective_lindbladian.py and the
 sparse tables `basis_basisconjugate_T_sparse_from_1` / `basishermitian_basis_T_from_1` of
@@ -135,18 +136,47 @@ def jCoef (B : Basis K d) (L : Mat K (d * d) (d * d)) (a : Fin (d * d)) (first :
   let delta : K := if first then 1 else 0
   1 / (two * dK d * (1 + delta)) * trMul L ((kron Ba Mat.one).add (kron Mat.one (conjM Ba)))
 
-/-- `calc_h_mat` on the comp-basis generator: the loop runs over the whole basis -/
+/-! ### extraction loops, driven by the constants GENERATED from the source (lean/QGen/C18.lean)
+
+`harness/c18.py:translate` re-reads `calc_h_mat`, `calc_j_mat`, `calc_k_mat` on every run and regenerates the slice start of
+the loop over the basis, the sign between the two Kronecker terms, the conjugation flag, numerator / denominator of the
+coefficient and the position of `delta`. The executed extraction below is the generic loop instantiated with those
+constants; `QProofs/C18.lean` proves it equal to the reference formulas (`hCoef`, `jCoef`), so a source edit of the
+index glue re-opens that proof obligation. -/
+
+/-- `np.trace(L_cb @ (kron(B, 1) ± kron(1, B[.conj()])))` -/
+def pairG (neg cj : Bool) (L : Mat K (d * d) (d * d)) (Ba : Mat K d d) : K :=
+  let second := kron Mat.one (if cj then conjM Ba else Ba)
+  trMul L (if neg then (kron Ba Mat.one).sub second else (kron Ba Mat.one).add second)
+
+/-- `(1j | 1) / (den * dim [* (1 + delta)]) * trace` -/
+def coefG (imag : Bool) (den : Nat) (neg cj isDelta : Bool) (B : Basis K d) (L : Mat K (d * d) (d * d))
+    (a : Fin (d * d)) : K :=
+  (if imag then ii else 1) / ((den : K) * dK d * (1 + (if isDelta then 1 else 0))) * pairG neg cj L (B.get a)
+
+/-- `for alpha, B_alpha in enumerate(basis[start:])`: elements before `start` are not visited; `alpha` counts from the
+slice start; `delta = 1 if alpha == deltaAt` -/
+def extractG (start : Nat) (deltaAt : Option Nat) (imag : Bool) (den : Nat) (neg cj : Bool)
+    (B : Basis K d) (L : Mat K (d * d) (d * d)) : Mat K d d :=
+  msum (d * d) fun a =>
+    if a.val < start then Mat.zero
+    else (B.get a).smul (coefG imag den neg cj (deltaAt == some (a.val - start)) B L a)
+
+/-- `calc_h_mat` on the comp-basis generator -/
 def calcHMatCb (B : Basis K d) (L : Mat K (d * d) (d * d)) : Mat K d d :=
-  msum (d * d) fun a => (B.get a).smul (hCoef B L a)
+  extractG QGen.C18.hLoopStart QGen.C18.hDeltaAt QGen.C18.hNumImag QGen.C18.hDen QGen.C18.hNegSecond
+    QGen.C18.hConjSecond B L
 
-/-- `calc_j_mat` on the comp-basis generator: `for alpha, B_alpha in enumerate(basis)`,
-`delta = 1 if alpha == 0` (the identity element gets the factor `1/(4 dim)`, every other one `1/(2 dim)`). -/
+/-- `calc_j_mat` on the comp-basis generator (whole basis, `delta` on the identity element since `fix:` 8192d10) -/
 def calcJMatCb (B : Basis K d) (L : Mat K (d * d) (d * d)) : Mat K d d :=
-  msum (d * d) fun a => (B.get a).smul (jCoef B L a (a.val = 0))
+  extractG QGen.C18.jLoopStart QGen.C18.jDeltaAt QGen.C18.jNumImag QGen.C18.jDen QGen.C18.jNegSecond
+    QGen.C18.jConjSecond B L
 
-/-- `calc_k_mat`: `k[α,β] = tr(L_cb · B_{α+1} ⊗ conj B_{β+1})` -/
+/-- `calc_k_mat`: `k[α,β] = tr(L_cb · B_{α+1} ⊗ conj B_{β+1})` (both loops over `basis[1:]` — the translator insists on
+the slice start 1, which the shape `dim² − 1` of the result needs; the conjugation flag is generated) -/
 def calcKMatCb (B : Basis K d) (L : Mat K (d * d) (d * d)) : Mat K (d * d - 1) (d * d - 1) :=
-  Mat.ofFn fun a b => trMul L (kron (B.get (suc a)) (conjM (B.get (suc b))))
+  Mat.ofFn fun a b => trMul L (kron (B.get (suc a))
+    (if QGen.C18.kConjSecond then conjM (B.get (suc b)) else B.get (suc b)))
 
 /-- the methods start with `lindbladian_cb = convert_hs(self.hs, basis, comp_basis)` -/
 def calcHMat (B : Basis K d) (hs : Mat K (d * d) (d * d)) : Mat K d d := calcHMatCb B (toComp B hs)
@@ -224,6 +254,11 @@ def dPartCbFromJumpGksl (cs : List (Mat K d d)) : Option (Mat K (d * d) (d * d))
 /-- action of a comp-basis superoperator on a matrix: `unvec(L_cb · vec ρ)` -/
 def act (L : Mat K (d * d) (d * d)) (rho : Mat K d d) : Mat K d d :=
   unflatten (L.mulVec (flatten rho))
+
+/-- Choi matrix `Σ_ij E_ij ⊗ Φ(E_ij)` of the map with comp-basis matrix `L` (a reshuffle of its entries):
+entry `((i,k),(j,l)) = Φ(E_ij)[k,l] = L[(k,l),(i,j)]` -/
+def choiCb (L : Mat K (d * d) (d * d)) : Mat K (d * d) (d * d) :=
+  Mat.ofFn fun r c => L.get (pr (p2 r) (p2 c)) (pr (p1 r) (p1 c))
 
 /-- `calc_proj_eq_constraint`: `new_hs[0, :] = 0` -/
 def projEq {R : Type} [Zero R] (hs : Mat R n n) : Mat R n n :=
